@@ -146,6 +146,18 @@ func (d *DNSFilter) filterSetProperties(
 		if shouldRestart {
 			// Download the filter contents.
 			shouldRestart, err = d.update(flt)
+			if err == nil && !shouldRestart {
+				// The new contents have the checksum of an unloaded list,
+				// that is they have no rules.  Don't let the rules stored
+				// before the list was disabled or its URL changed come back
+				// with the next engine rebuild.
+				err = os.Remove(flt.Path(d.conf.DataDir))
+				if errors.Is(err, os.ErrNotExist) {
+					err = nil
+				}
+
+				shouldRestart = true
+			}
 		}
 	} else {
 		// TODO(e.burkov):  The validation of the contents of the new URL is
